@@ -84,7 +84,7 @@ def replay(args):
                 evict(os.path.join(root, "store%s" % ph(e.get("s", 1))), KEYVAL[e["k"]]); must.pop((ph(e.get("s", 1)), e["k"]), None); r = {}
             elif op in ("call", "force"):
                 v = ocode[(e["p"], e["i"])]; st = e.get("s", 1); k = (ph(st), e["k"]); calls += 1
-                r = sess(e["p"]).do({"op": op, "i": e["i"], "s": st, "k": KEYVAL[e["k"]]})
+                r = sess(e["p"]).do({"op": op, "i": e["i"], "s": st, "k": KEYVAL[e["k"]], "copy": (hid + n) % 3 == 2})
                 if "exc" not in r:
                     if r["value"] != ["v%d" % v, KEYVAL[e["k"]]]:
                         problems.append({"kind": "value_of_other_code", "step": n, "called_version": v, "got": r["value"]})
